@@ -19,14 +19,16 @@ def hexDigitVal (c : Char) : Option Nat :=
   else if 'a' ≤ c ∧ c ≤ 'f' then some (c.toNat - 'a'.toNat + 10)
   else none
 
-def hexDecode : List Char → Option (List UInt8)
-  | [] => some []
-  | a :: b :: rest => do
-    let x ← hexDigitVal a
-    let y ← hexDigitVal b
-    let r ← hexDecode rest
-    pure (UInt8.ofNat (x * 16 + y) :: r)
-  | _ => none
+/-- tail recursive: tokens of several megabytes (inflated streams of the C14 thorough tier) must not need stack -/
+def hexDecodeAux : List Char → List UInt8 → Option (List UInt8)
+  | [], acc => some acc.reverse
+  | a :: b :: rest, acc =>
+    match hexDigitVal a, hexDigitVal b with
+    | some x, some y => hexDecodeAux rest (UInt8.ofNat (x * 16 + y) :: acc)
+    | _, _ => none
+  | _, _ => none
+
+def hexDecode (l : List Char) : Option (List UInt8) := hexDecodeAux l []
 
 def hexChar (n : Nat) : Char := if n < 10 then Char.ofNat (48 + n) else Char.ofNat (87 + n)
 
